@@ -298,8 +298,15 @@ theorem node_idem : (n : Node) → (nx : Bool) → Norm.node (Norm.node n nx) nx
     have hcs : Norm.nodes true true (Norm.nodes true true cs false) false = Norm.nodes true true cs false := by
       rw [norm_nodes_atStart _ _ _ _ (nodes_headNonWs true cs false), nodes_idem true true cs false]
     simp only [Norm.node] at hk ⊢
-    rw [hk, attrs_idem, norm_nodes_nonNil, hcs,
-      nonNil_congr cs _ _ (nonNil_isNil cs _ (nodes_isNil_of_isNil true true cs false))]
+    rw [hk, attrs_idem]
+    cases hv : Sem.isVoid n with
+    | true =>
+      simp only [if_true]
+      rw [norm_nodes_nonNil, hcs,
+        nonNil_congr cs _ _ (nonNil_isNil cs _ (nodes_isNil_of_isNil true true cs false))]
+    | false =>
+      simp only [Bool.false_eq_true, if_false]
+      rw [hcs]
   | .htmlComment _, _ => by simp only [Norm.node]
   | .children, _ => by simp only [Norm.node]
   | .raw _ as _, _ => by simp only [Norm.node, attrs_idem]
@@ -379,8 +386,15 @@ theorem genNode_norm : (n : Node) → (nx : Bool) → Gen.genNode (Norm.node n n
       rw [gen_nodes_atStart _ _ _ _ (nodes_headNonWs true cs false), genNodes_norm true true cs false]
     simp only [Norm.node] at ht
     simp only [Norm.node, Gen.genNode]
-    rw [ht, openTag_norm, gen_nodes_nonNil, hcs,
-      nonNil_isNil cs _ (nodes_isNil_of_isNil true true cs false)]
+    rw [ht, openTag_norm]
+    cases hv : Sem.isVoid n with
+    | true =>
+      simp only [if_true]
+      rw [gen_nodes_nonNil, hcs,
+        nonNil_isNil cs _ (nodes_isNil_of_isNil true true cs false)]
+    | false =>
+      simp only [Bool.false_eq_true, if_false, Bool.false_and]
+      rw [hcs]
   | .htmlComment _, _ => by simp only [Norm.node]
   | .children, _ => by simp only [Norm.node]
   | .raw _ as _, _ => by simp only [Norm.node, Gen.genNode, openTag_norm]
